@@ -1,4 +1,5 @@
 import Grexv.Lemmas.PrintLex
+import Grexv.Lemmas.PrintHex
 import Grexv.Lemmas.ToPat
 
 /-
@@ -10,10 +11,94 @@ set_option linter.unusedVariables false
 namespace Grexv
 open Spec
 
+/-- the `-e` step of `escape_regexp_symbols` (without surrogate pairs) on a text -/
+def E (esc : Bool) (t : Str) : Str := if esc then t.flatMap (fun c => Expr.escapeChar c false) else t
+
+theorem E_append (esc : Bool) (a b : Str) : E esc (a ++ b) = E esc a ++ E esc b := by cases esc <;> simp [E]
+theorem E_flatMap {α : Type} (esc : Bool) (l : List α) (f : α → Str) : E esc (l.flatMap f) = l.flatMap (fun x => E esc (f x)) := by
+  cases esc
+  · simp [E]
+  · simp only [E, ite_true, List.flatMap_assoc]
+
+/-- the final text of one code point with or without `-e` -/
+def pcE (esc : Bool) (x : Nat) : Str := R (E esc (core1 x))
+
+theorem pcE_false (x : Nat) : pcE false x = pc x := by
+  unfold pcE pc E
+  rw [if_neg (by decide)]
+
+theorem core1_ascii_closed : (List.range 128).all (fun x => (core1 x).all (· < 128)) = true := by decide +kernel
+
+theorem E_ascii (esc : Bool) (t : Str) (h : ∀ c ∈ t, c < 128) : E esc t = t := by
+  cases esc
+  · rfl
+  · simp only [E, ite_true]
+    induction t with
+    | nil => rfl
+    | cons c r ih =>
+      have hc : c < 128 := h c List.mem_cons_self
+      have he : Expr.escapeChar c false = [c] := by simp [Expr.escapeChar, hc]
+      simp only [List.flatMap_cons, he]
+      rw [ih (fun x hx => h x (List.mem_cons_of_mem _ hx))]
+      rfl
+
+theorem pcE_ascii (esc : Bool) (x : Nat) (h : x < 128) : pcE esc x = pc x := by
+  unfold pcE pc
+  rw [E_ascii]
+  have := List.all_eq_true.mp core1_ascii_closed x (List.mem_range.mpr h)
+  intro c hc
+  simpa using List.all_eq_true.mp this c hc
+
+theorem hexDigit_not_vt : ∀ d, d < 16 → hexDigit d ≠ 11 ∧ hexDigit d ≠ 12 := by decide
+
+theorem R_id (t : Str) (h : ∀ c ∈ t, c ≠ 11 ∧ c ≠ 12) : R t = t := by
+  induction t with
+  | nil => rfl
+  | cons c r ih =>
+    have hc := h c List.mem_cons_self
+    have : R [c] = [c] := by simp [R, replaceChar, hc.1, hc.2]
+    have e : c :: r = [c] ++ r := rfl
+    rw [e, R_append, this, ih (fun x hx => h x (List.mem_cons_of_mem _ hx))]
+
+theorem pcE_nonascii (x : Nat) (h : 128 ≤ x) : pcE true x = [92, 117, 123] ++ toHex x ++ [125] := by
+  have hx : ¬ x < 128 := by omega
+  unfold pcE
+  rw [core1_nonascii x h]
+  simp only [E, ite_true, List.flatMap_cons, List.flatMap_nil, List.append_nil, Expr.escapeChar, hx, ite_false,
+    Bool.false_and, Bool.false_eq_true]
+  apply R_id
+  intro c hc
+  simp only [List.mem_append, List.mem_cons, List.mem_nil_iff, or_false] at hc
+  rcases hc with ((rfl | rfl | rfl) | hc) | rfl
+  · decide
+  · decide
+  · decide
+  · rw [toHex_eq] at hc
+    obtain ⟨d, hd, rfl⟩ := List.mem_map.mp hc
+    exact hexDigit_not_vt d (hexDigs_lt 64 x d hd)
+  · decide
+
+/-- **one printed code point is one `chr` item**, raw, backslash-escaped or as `\u{…}` -/
+theorem lex_charE (esc : Bool) (x : Nat) (hx : x ≠ 92) (hs : Scalar x) (f : Nat) (rest : List Nat) (st : List Frame) (al co : List Pat) :
+    parseLoop false (f + 1) (pcE esc x ++ rest) st al co = parseLoop false f rest st al (Pat.chr x :: co) := by
+  by_cases h : x < 128
+  · rw [pcE_ascii esc x h]; exact lex_char x hx f rest st al co
+  · cases esc with
+    | false => rw [pcE_false]; exact lex_char x hx f rest st al co
+    | true =>
+      rw [pcE_nonascii x (by omega)]
+      have := step_hex x ((scalar_iff x).mpr hs) f rest st al co
+      simpa using this
+
 theorem pc_92 : pc 92 = [92] := by decide +kernel
+
+theorem pcE_92 (esc : Bool) : pcE esc 92 = [92] := by rw [pcE_ascii esc 92 (by decide)]; exact pc_92
 
 theorem pc_letter (k : ClassKind) (n : Bool) : pc (letterOf k n) = [letterOf k n] := by
   cases k <;> cases n <;> decide +kernel
+
+theorem pcE_letter (esc : Bool) (k : ClassKind) (n : Bool) : pcE esc (letterOf k n) = [letterOf k n] := by
+  rw [pcE_ascii esc _ (by cases k <;> cases n <;> decide)]; exact pc_letter k n
 
 theorem core1_92 : core1 92 = [92] := by decide +kernel
 
@@ -28,9 +113,9 @@ theorem step_perl (k : ClassKind) (n : Bool) (f : Nat) (rest : List Nat) (st : L
   rw [parseLoop]
   simp [hpe]
 
-theorem lex_atoms (as : List Atom) (h : ∀ a ∈ as, AtomOK a) :
+theorem lex_atoms (esc : Bool) (as : List Atom) (h : ∀ a ∈ as, AtomOK a) :
     ∀ (f : Nat) (rest : List Nat) (st : List Frame) (al co : List Pat),
-      parseLoop false (f + as.length) ((untok as).flatMap pc ++ rest) st al co =
+      parseLoop false (f + as.length) ((untok as).flatMap (pcE esc) ++ rest) st al co =
         parseLoop false f rest st al ((as.map atomPat).reverse ++ co) := by
   induction as with
   | nil => intro f rest st al co; simp [untok]
@@ -41,13 +126,14 @@ theorem lex_atoms (as : List Atom) (h : ∀ a ∈ as, AtomOK a) :
     cases a with
     | chr c =>
       have hc : c ≠ 92 := (h _ List.mem_cons_self).1
+      have hsc : Scalar c := (h _ List.mem_cons_self).2
       rw [hlen]
       simp only [untok, List.flatMap_cons, List.append_assoc]
-      rw [lex_char c hc, ih hr]
+      rw [lex_charE esc c hc hsc, ih hr]
       simp [atomPat]
     | cls k n =>
       rw [hlen]
-      simp only [untok, List.flatMap_cons, List.append_assoc, pc_92, pc_letter, List.singleton_append, List.cons_append, List.nil_append]
+      simp only [untok, List.flatMap_cons, List.append_assoc, pcE_92, pcE_letter, List.singleton_append, List.cons_append, List.nil_append]
       rw [step_perl, ih hr]
       simp [atomPat]
 
@@ -85,25 +171,26 @@ theorem flatMap_core1_ne (as : List Atom) (h : ∀ a ∈ as, AtomOK a) : (untok 
       intro hc
       simp at hc
 
-theorem R_escapeSymbols (as : List Atom) (h : AtomsOK as) :
-    R (escapeSymbols (untok as)) = if as = [Atom.chr 92] then [92, 92] else (untok as).flatMap pc := by
+theorem R_escapeSymbols (esc : Bool) (as : List Atom) (h : AtomsOK as) :
+    R (E esc (escapeSymbols (untok as))) = if as = [Atom.chr 92] then [92, 92] else (untok as).flatMap (pcE esc) := by
   rw [escapeSymbols_eq]
   rcases h with rfl | h
   · have : (untok [Atom.chr 92]).flatMap core1 = [92] := by decide +kernel
     simp only [this, ite_true]
+    rw [E_ascii esc _ (by decide)]
     decide +kernel
   · have hne : as ≠ [Atom.chr 92] := by
       intro hc; subst hc
       have := (h _ List.mem_cons_self).1
       exact this rfl
-    simp only [flatMap_core1_ne as h, hne, ite_false, R_flatMap]
+    simp only [flatMap_core1_ne as h, hne, ite_false, E_flatMap, R_flatMap]
     rfl
 
 /-- **one grapheme** -/
-theorem lex_grapheme (as : List Atom) (h : AtomsOK as) (f : Nat) (rest : List Nat) (st : List Frame) (al co : List Pat) :
-    parseLoop false (f + as.length) (R (escapeSymbols (untok as)) ++ rest) st al co =
+theorem lex_grapheme (esc : Bool) (as : List Atom) (h : AtomsOK as) (f : Nat) (rest : List Nat) (st : List Frame) (al co : List Pat) :
+    parseLoop false (f + as.length) (R (E esc (escapeSymbols (untok as))) ++ rest) st al co =
       parseLoop false f rest st al ((as.map atomPat).reverse ++ co) := by
-  rw [R_escapeSymbols as h]
+  rw [R_escapeSymbols esc as h]
   split
   · rename_i hs
     subst hs
@@ -111,14 +198,14 @@ theorem lex_grapheme (as : List Atom) (h : AtomsOK as) (f : Nat) (rest : List Na
   · rename_i hs
     rcases h with h | h
     · exact absurd h hs
-    · exact lex_atoms as h f rest st al co
+    · exact lex_atoms esc as h f rest st al co
 
-theorem fmtGrapheme_plain (cap : Bool) (s : Str) :
-    fmtGrapheme (cfgPlain cap) (escapeGrapheme (cfgPlain cap) (Grapheme.ofStr s)) = escapeSymbols s := by
-  simp [Grapheme.ofStr, escapeGrapheme, escapeGraphemes, fmtGrapheme, cfgPlain, Comp.charClass, paint]
+theorem fmtGrapheme_plain (cap esc : Bool) (s : Str) :
+    fmtGrapheme (cfgPlain cap esc) (escapeGrapheme (cfgPlain cap esc) (Grapheme.ofStr s)) = E esc (escapeSymbols s) := by
+  cases esc <;> simp [Grapheme.ofStr, escapeGrapheme, escapeGraphemes, fmtGrapheme, cfgPlain, Comp.charClass, paint, E]
 
-theorem fmtLiteral_plain (cap : Bool) (c : Cluster) (h : PlainBs c) :
-    fmtLiteral (cfgPlain cap) c = c.flatMap (fun g => escapeSymbols g.value) := by
+theorem fmtLiteral_plain (cap esc : Bool) (c : Cluster) (h : PlainBs c) :
+    fmtLiteral (cfgPlain cap esc) c = c.flatMap (fun g => E esc (escapeSymbols g.value)) := by
   unfold fmtLiteral
   induction c with
   | nil => simp
@@ -133,11 +220,11 @@ theorem atomsOf_cons (as : List Atom) (h : AtomsOK as) (gs : Cluster) :
   simp [atomsOf, value_ofStr, tokens_untok as h]
 
 /-- **one literal** -/
-theorem lex_literal (cap : Bool) (c : Cluster) (h : PlainBs c) :
+theorem lex_literal (cap esc : Bool) (c : Cluster) (h : PlainBs c) :
     ∀ (f : Nat) (rest : List Nat) (st : List Frame) (al co : List Pat),
-      parseLoop false (f + (atomsOf c).length) (R (fmtLiteral (cfgPlain cap) c) ++ rest) st al co =
+      parseLoop false (f + (atomsOf c).length) (R (fmtLiteral (cfgPlain cap esc) c) ++ rest) st al co =
         parseLoop false f rest st al (((atomsOf c).map atomPat).reverse ++ co) := by
-  rw [fmtLiteral_plain cap c h]
+  rw [fmtLiteral_plain cap esc c h]
   induction c with
   | nil => intro f rest st al co; simp [atomsOf, R_nil]
   | cons g gs ih =>
@@ -147,7 +234,7 @@ theorem lex_literal (cap : Bool) (c : Cluster) (h : PlainBs c) :
     rw [atomsOf_cons as hok gs]
     have hlen : f + (as ++ atomsOf gs).length = (f + (atomsOf gs).length) + as.length := by
       simp; omega
-    rw [hlen, List.flatMap_cons, R_append, List.append_assoc, value_ofStr, lex_grapheme as hok, ih hgs]
+    rw [hlen, List.flatMap_cons, R_append, List.append_assoc, value_ofStr, lex_grapheme esc as hok, ih hgs]
     simp
 
 end Grexv
